@@ -33,7 +33,7 @@ def plan(tier, seed):
         return {'n': 26000, 'deadline': 150,
                 'floor': {'distinct_nontrivial': 6000, 'mods_while_suspended': 30000, 'api_histories': 8000,
                           'compiled_histories': 6000, 'retract_enumerations': 6000, 'query_enumerations': 6000}}
-    return {'n': 250000 + exh_count(), 'deadline': 540, 'exh': exh_count(),
+    return {'n': 650000 + exh_count(), 'deadline': 540, 'exh': exh_count(),
             'floor': {'distinct_nontrivial': 30000, 'mods_while_suspended': 150000, 'api_histories': 40000,
                       'compiled_histories': 30000, 'exhaustive_interleavings': exh_count()}}
 
